@@ -51,7 +51,7 @@ def kani(P, u, prop):
     arms = []
     for v in P.variants:
         d = desig(v, "deref")
-        arms.append("%s => %s as *const %s," % (P.pat(v, "x"), ("&**x%d" if is_ref(d) else "x%d") % d.idx, tgt))
+        arms.append("%s => %s as *const %s," % (P.pat(v, "x"), ("(**x%d).as_ptr()" if "[u8]" in d.ty and is_ref(d) and "Box" not in d.ty else "&**x%d" if is_ref(d) else "x%d") % d.idx, tgt))
     u.kani_oracle.append("/// address of the storage &*x must point at\npub fn deref_addr(x: &TI) -> *const %s {\n    match x {\n        %s\n    }\n}\n" % (tgt, "\n        ".join(arms)))
     u.kani_harness.append("""
 #[kani::proof]
